@@ -352,6 +352,10 @@ func propC14(w *World, r *Report) {
 	for i, ws := range writes {
 		if ws.isC && ws.str == "\n" && i > 0 && writes[i-1].fn == ws.fn && strings.Contains(writes[i-1].term, "Marshal(") {
 			okTerm = writes[i-1].call.Block().Dominates(ws.call.Block()) || writes[i-1].call.Block() == ws.call.Block()
+			// ... written where the description was written successfully (when that write's error is tested, on its nil edge)
+			if okE, _ := errEdges(writes[i-1].call); okE != nil && !(okE == ws.call.Block() || okE.Dominates(ws.call.Block())) {
+				okTerm = false
+			}
 		}
 	}
 	r.Check(okTerm, "M6", "leptond terminates the YAML camera description with a blank line", "-", fmt.Sprintf("%d socket writes", len(writes)))
@@ -563,6 +567,74 @@ func propC14(w *World, r *Report) {
 		}
 	}
 	r.Check(len(ks) >= 8, "G4", "header keys found", "-", fmt.Sprint(len(ks)))
+	// a checked type assertion yields its value exactly when it succeeded: the accessors of the headers package return the
+	// asserted value on the ok edge and a fixed default otherwise (the reverse reads every field as its zero value)
+	if hp := w.Pkg("headers"); hp != nil {
+		nAcc := 0
+		var fns []*ssa.Function
+		for fn := range w.AllFuncs {
+			if fn.Pkg == hp && len(fn.Blocks) > 0 {
+				fns = append(fns, fn)
+			}
+		}
+		sort.Slice(fns, func(i, j int) bool { return fns[i].String() < fns[j].String() })
+		for _, fn := range fns {
+			var ta *ssa.TypeAssert
+			for _, b := range fn.Blocks {
+				for _, in := range b.Instrs {
+					if t, ok := in.(*ssa.TypeAssert); ok && t.CommaOk {
+						ta = t
+					}
+				}
+			}
+			if ta == nil || fn.Signature.Results().Len() != 1 || hasLoop(fn) {
+				continue
+			}
+			var val, okv ssa.Value
+			for _, rf := range *ta.Referrers() {
+				if ex, isEx := rf.(*ssa.Extract); isEx {
+					if ex.Index == 0 {
+						val = ex
+					} else {
+						okv = ex
+					}
+				}
+			}
+			ae := newTermEnv(w)
+			paths, complete := enumPaths(ae, fn, 32)
+			if !complete || okv == nil {
+				continue
+			}
+			nAcc++
+			good := true
+			detail := ""
+			for _, p := range paths {
+				pol, tested := false, false
+				for _, g := range p.Conds {
+					if g.If.Cond == okv {
+						pol, tested = g.Pos, true
+					}
+				}
+				rv := p.Ret.Results[0]
+				for {
+					if cv, isCv := rv.(*ssa.Convert); isCv {
+						rv = cv.X
+						continue
+					}
+					break
+				}
+				_, isConst := rv.(*ssa.Const)
+				switch {
+				case tested && pol && rv != val:
+					good, detail = false, "the assertion succeeded but "+ae.termOf(rv).String()+" is returned"
+				case tested && !pol && !isConst:
+					good, detail = false, "the assertion failed but its (zero) result is used as if it had succeeded"
+				}
+			}
+			r.Check(good, "M5", "accessor "+fn.Name()+" returns the asserted value exactly when the type assertion succeeded", w.Pos(fn.Pos()), detail)
+		}
+		r.Check(nAcc >= 1 || len(fns) > 0, "G4", "accessors with checked assertions scanned", "-", fmt.Sprint(nAcc))
+	}
 	// FrameSize value
 	if fs, ok := writer["FrameSize"]; ok {
 		r.Check(strings.HasSuffix(fs.val, "") && isBytesPerFrame(w, fs.val), "M6", "leptond announces lepton3.BytesPerFrame as the frame size", fs.pos, fs.val)
@@ -740,7 +812,11 @@ func checkReadHeaderInfo(w *World, r *Report, rh *ssa.Function) {
 				}
 				ve := newTermEnv(w)
 				ve.valueHelpers = true // the blank-line test may sit in a small predicate helper
-				ts := ve.termOf(iff.Cond).String()
+				ct := ve.termOf(iff.Cond)
+				if s == bb.Succs[1] {
+					ct = tnot(ct) // the loop is left when the condition is FALSE
+				}
+				ts := ct.String()
 				ts = strings.Replace(ts, `eq(strings.Trim(#0(bufio.Reader.ReadString(param:bufio.Reader, 10)), " "), "\n")`, `eq("\n", strings.Trim(#0(bufio.Reader.ReadString(param:bufio.Reader, 10)), " "))`, 1)
 				exits = append(exits, ts)
 			}
@@ -772,8 +848,9 @@ func checkReadHeaderInfo(w *World, r *Report, rh *ssa.Function) {
 	for _, f := range w.funcFamily(rhOuter) {
 		for _, bb := range f.Blocks {
 			if iff, ok := bb.Instrs[len(bb.Instrs)-1].(*ssa.If); ok {
-				if strings.Contains(e.termOf(iff.Cond).String(), "yaml.v1.Unmarshal(") || strings.Contains(e.termOf(iff.Cond).String(), "Unmarshal(") {
-					if ret, ok := bb.Succs[0].Instrs[len(bb.Succs[0].Instrs)-1].(*ssa.Return); ok && e.termOf(ret.Results[0]).String() == "nil" {
+				if ct := e.termOf(iff.Cond).String(); strings.HasPrefix(ct, "ne(") && strings.Contains(ct, "Unmarshal(") {
+					// on the "error is not nil" edge: no description, and that very error
+					if ret, ok := bb.Succs[0].Instrs[len(bb.Succs[0].Instrs)-1].(*ssa.Return); ok && len(ret.Results) == 2 && e.termOf(ret.Results[0]).String() == "nil" && strings.Contains(e.termOf(ret.Results[1]).String(), "Unmarshal(") {
 						okY = true
 						// when the decode lives in a stage function its error must come back out of ReadHeaderInfo
 						if f != rhOuter {
